@@ -7,7 +7,4 @@
     specification. *)
 From NoKV Require Export Corr.RunPerco.
 
-Definition check (c : case) : verdict :=
-  let m := negb (model_ok current (c_keys c) empty_store (c_steps c)) in
-  let v := negb (spec_ok false (c_keys c) lempty (c_steps c)) in
-  mk_verdict m v 0.
+Definition check (c : case) : verdict := check_gen false c.
